@@ -73,7 +73,42 @@ def do_import(wt, name, second=False):
     return confirmed
 
 
-def do_run(names, all_checks=False, tier='quick'):
+def harvest_corpus(name, pid, limit=3):
+    """Keep the (shrunk) cases that exposed this change as regression cases - they must pass on /repo itself."""
+    import glob
+    sys.path.insert(0, ROOT)
+    sys.path.insert(0, '/repo')
+    from vf.runner import load_prop
+    mod = load_prop(pid)
+    files = sorted(glob.glob(os.path.join(ROOT, 'replays', pid + '-*.json')), key=os.path.getmtime, reverse=True)
+    kept = 0
+    seen = set()
+    for f in files:
+        if time.time() - os.path.getmtime(f) > 600:
+            break
+        doc = json.load(open(f))
+        sig = doc['violation']['sig']
+        if sig in seen or 'case' not in doc or len(json.dumps(doc['case'])) > 6000:
+            continue
+        try:
+            res = mod.run_case(doc['case'])
+        except Exception:  # noqa
+            continue
+        if res.violations:
+            continue        # not quiet on the real tree (e.g. a known finding): not a regression case
+        seen.add(sig)
+        d = os.path.join(ROOT, 'corpus', pid)
+        os.makedirs(d, exist_ok=True)
+        out = os.path.join(d, 'seeded-%s-%s.json' % (name, ''.join(ch if ch.isalnum() else '-' for ch in sig)[:40]))
+        json.dump({'note': 'exposed the independently seeded change %s (signature %s); passes on the repaired tree' % (name, sig),
+                   'case': doc['case']}, open(out, 'w'), indent=1)
+        kept += 1
+        if kept >= limit:
+            break
+    return kept
+
+
+def do_run(names, all_checks=False, tier='quick', harvest=False):
     sd = os.path.join(ROOT, 'seeded')
     names = names or sorted(n for n in os.listdir(sd) if os.path.exists(os.path.join(sd, n, 'patch.diff')))
     ids = [json.loads(l)['id'] for l in open(os.path.join(ROOT, 'properties.jsonl'))]
@@ -93,6 +128,8 @@ def do_run(names, all_checks=False, tier='quick'):
                     print(r.stdout[-1500:])
         finally:
             shutil.rmtree(d, ignore_errors=True)
+        if harvest and res[meta['property']][0] == 'CAUGHT':
+            harvest_corpus(n, meta['property'])
         own = res[meta['property']]
         others = [p for p, v in res.items() if v[0] == 'CAUGHT' and p != meta['property']]
         rows.append((n, meta['property'], own[0], ','.join(own[1])[:90], ','.join(others)))
@@ -107,6 +144,6 @@ if __name__ == '__main__':
     elif a and a[0] == 'run':
         tier = a[a.index('--tier') + 1] if '--tier' in a else 'quick'
         names = [x for x in a[1:] if not x.startswith('--') and x != tier]
-        do_run(names, '--all-checks' in a, tier)
+        do_run(names, '--all-checks' in a, tier, '--harvest' in a)
     else:
         print(__doc__)
